@@ -182,6 +182,22 @@ func prop(c Case) pbt.Outcome {
 	// goroutines_after - goroutines_before <= c independent of n: two further batches of equal size must
 	// not both add goroutines (a one-off lazy start would show in at most one of them).
 	if g2-g1 > 0 && g3-g2 > 0 {
+		// Goroutines that were told to stop may not have been scheduled yet on a loaded machine: a leak stays,
+		// a straggler goes away. Give them time (bounded) and look again before judging.
+		for i := 0; i < 20; i++ {
+			time.Sleep(150 * time.Millisecond)
+			n := settle()
+			if n >= g3 {
+				if i >= 3 {
+					break
+				}
+				continue
+			}
+			g3 = n
+		}
+		c3 = creators()
+	}
+	if g2-g1 > 0 && g3-g2 > 0 && g3-g1 >= 2 {
 		return pbt.Outcome{NonTrivial: nt, Labels: labels, Fail: pbt.Failf("goroutine-leak",
 			"live goroutines grow with the number of finished simulations: before=%d after %d sims=%d after %d=%d after %d=%d (%.1f per simulation; machine has %d processors); created by: %s",
 			g0, c.First, g1, c.First+c.Batch, g2, c.First+2*c.Batch, g3, float64(g3-g1)/float64(2*c.Batch), len(c.Spec.Procs), diffCreators(c1, c3))}
